@@ -7,6 +7,7 @@ TC09c  `geometry_equal`, the whole decision (array comparisons as parameters)  -
 TC09d  the per-axis tests of both bounds checks (`map_reference_to_indices`,
        `VolumeToVolumeTransformer.__call__`)                                   -> Gen.refBoundsAxis, Gen.v2vBoundsAxis
 TC09e  `match_geometry`, the refusals before the alignment loops (FoR, CS)     -> Gen.mgHead
+TC09g  dtype decisions of `VolumeToVolumeTransformer.__call__`                 -> Gen.v2vInputIsInt, Gen.v2vKeepInputType, Gen.v2vCastBack
 TC09f  structural fingerprint: ordered top-level operations (with guards) of `match_geometry`, of the
        transformer and of `map_reference_to_indices`                           -> Gen.mgSteps, Gen.v2vSteps, Gen.refIdxSteps
 
@@ -455,12 +456,15 @@ def build_order(tree):
                 raise Unsupported('output_indices is not taken from the product')
             ops[-1] = 'apply'; continue
         if isinstance(st, ast.If) and _norm(_txt(st.test)) == 'self._round_output':
-            if 'np.around(output_indices)' not in _txt(st.body[-1]):
-                raise Unsupported('rounding branch does not call np.around(output_indices)')
-            for e in st.orelse:
-                if 'around' in _txt(e) or 'round(' in _txt(e):
-                    raise Unsupported('rounding in the non-rounding branch')
-            ops.append('round'); continue
+            # rounding, then the choice of the output dtype and the cast (decisions translated by TC09g)
+            if not (_assign_is(st.body[0], 'output_indices', 'np.around(output_indices)')
+                    and _assign_is(st.body[-1], 'output_indices', 'output_indices.astype(output_dtype)')):
+                raise Unsupported('rounding branch is not np.around(output_indices) ... astype(output_dtype)')
+            if not (len(st.orelse) == 1 and isinstance(st.orelse[0], ast.If) and not st.orelse[0].orelse
+                    and len(st.orelse[0].body) == 1
+                    and _assign_is(st.orelse[0].body[0], 'output_indices', 'output_indices.astype(indices.dtype)')):
+                raise Unsupported('non-rounding branch is not a guarded cast back to the input dtype')
+            ops.append('round'); ops.append('cast'); continue
         if isinstance(st, ast.If) and _norm(_txt(st.test)).startswith('self._check_bounds'):
             ops.append('check'); continue
         if isinstance(st, ast.Return):
@@ -500,7 +504,73 @@ def build_order(tree):
     return t1 + '\n\n' + t2 + '\n\n' + t3, sha
 
 
+# ------------------------------------------------------------------------------------------ TC09g
+class _DtypeRewrite(ast.NodeTransformer):
+    def visit_Call(self, node):
+        t = _norm(_txt(node))
+        if t == 'output_indices.min()':
+            return ast.copy_location(ast.Name(id='out_min', ctx=ast.Load()), node)
+        if t == 'output_indices.max()':
+            return ast.copy_location(ast.Name(id='out_max', ctx=ast.Load()), node)
+        raise Unsupported('call in the dtype decision of the transformer: ' + _txt(node))
+
+    def visit_Attribute(self, node):
+        t = _norm(_txt(node))
+        m = {'output_indices.size': 'out_size', 'info.min': 'info_min', 'info.max': 'info_max', 'indices.dtype.kind': 'kind'}
+        if t in m:
+            return ast.copy_location(ast.Name(id=m[t], ctx=ast.Load()), node)
+        return node
+
+
+def build_v2v_dtype(tree):
+    """`VolumeToVolumeTransformer.__call__`: which inputs count as integers, when rounded output keeps the input
+    integer type, when unrounded output is cast back to the input type"""
+    call = find_func(tree, 'VolumeToVolumeTransformer.__call__')
+    body = strip_doc(call.body)
+    isint = [s for s in body if isinstance(s, ast.Assign) and _txt(s.targets[0]) == 'input_is_int']
+    if len(isint) != 1:
+        raise Unsupported('input_is_int assignment not found')
+    b1 = _fix([ast.Return(value=_DtypeRewrite().visit(copy.deepcopy(isint[0].value)))])
+    t1 = translate_block(b1, 'v2vInputIsInt', [('kind', 'str')], {},
+                         doc='`input_is_int`: does the dtype kind of the index array (`indices.dtype.kind`) count as integer')
+    rb = [s for s in body if isinstance(s, ast.If) and _norm(_txt(s.test)) == 'self._round_output']
+    if len(rb) != 1:
+        raise Unsupported('`if self._round_output` not found')
+    rb = rb[0]
+    inner = rb.body[1:-1]
+    stmts = []
+    for st in inner:
+        if _assign_is(st, 'output_dtype', 'np.int64'):
+            stmts.append(_parse_stmt('keep = False')); continue
+        if isinstance(st, ast.If) and _norm(_txt(st.test)) == 'input_is_int':
+            st = copy.deepcopy(st)
+
+            class R(ast.NodeTransformer):
+                def visit_Assign(self, node):
+                    if _assign_is(node, 'info', 'np.iinfo(indices.dtype)'):
+                        return None
+                    if _assign_is(node, 'output_dtype', 'indices.dtype'):
+                        return ast.copy_location(_parse_stmt('keep = True'), node)
+                    raise Unsupported('assignment in the dtype decision: ' + _txt(node))
+            st = R().visit(st)
+            st = _DtypeRewrite().visit(st)
+            stmts.append(st); continue
+        raise Unsupported('statement in the rounding branch not recognised: ' + _txt(st)[:80])
+    b2 = _fix(stmts + [_parse_stmt('return keep')])
+    t2 = translate_block(b2, 'v2vKeepInputType',
+                         [('input_is_int', 'bool'), ('out_size', 'int'), ('out_min', 'rat'), ('out_max', 'rat'),
+                          ('info_min', 'int'), ('info_max', 'int')], {},
+                         doc='rounded output: keep the integer dtype of the input (else np.int64)?  `out_min/out_max` = '
+                             'min/max over all rounded results, `info_min/info_max` = range of the input dtype '
+                             '(`np.iinfo(indices.dtype)`), `out_size` = number of results')
+    b3 = _fix([ast.Return(value=_DtypeRewrite().visit(copy.deepcopy(rb.orelse[0].test)))])
+    t3 = translate_block(b3, 'v2vCastBack', [('kind', 'str')], {},
+                         doc='unrounded output: cast the float64 results back to the dtype of the input?')
+    return t1 + '\n\n' + t2 + '\n\n' + t3, span_sha([isint[0], rb])
+
+
 TARGETS = {
+    'TC09g': {'file': 'volume.py', 'build': build_v2v_dtype},
     'TC09f': {'file': 'volume.py', 'build': build_order, 'imports': ['HdVerif.Model.MatchOps']},
     'TC09e': {'file': 'volume.py', 'build': build_matchhead},
     'TC09a': {'file': 'volume.py', 'build': build_align, 'imports': IMPORTS},
